@@ -39,6 +39,23 @@ structure Early where
   tolRel : Option F
 deriving Repr, DecidableEq, Inhabited
 
+/-- the tolerance tests at the end of `no_change`, given `max_score` and `max_first_n` -/
+def noChangeTail (flv : Flavour) (maxScore maxFirstN : F) (es : Early) : Except Err Bool :=
+  let absHit : Bool :=
+    match es.tolAbs with
+    | some ta => F.lt (F.abs (F.sub maxFirstN maxScore)) ta
+    | none => false
+  if absHit then pure true else
+    match es.tolRel with
+    | none => pure false
+    | some tr =>
+      let baseline := F.abs maxFirstN
+      if F.beq baseline F.zero then pure false   -- `baseline != 0` is False only for ±0.0
+      else do
+        let q ← F.div flv (F.sub maxScore maxFirstN) baseline
+        let percentImp := F.mul q (F.ofInt 100)
+        pure (F.lt percentImp tr)
+
 /-- `no_change(score_new_list, early_stopping)`; `false` also stands for the `None` the function falls off with -/
 def noChange (flv : Flavour) (scores : List F) (es : Early) : Except Err Bool :=
   match es.n with
@@ -51,20 +68,7 @@ def noChange (flv : Flavour) (scores : List F) (es : Early) : Except Err Bool :=
       if diff > n then pure true else do
         let firstN := scores.length - n
         let maxFirstN ← pyMax (scores.take firstN)
-        let absHit : Bool :=
-          match es.tolAbs with
-          | some ta => F.lt (F.abs (F.sub maxFirstN maxScore)) ta
-          | none => false
-        if absHit then pure true else
-          match es.tolRel with
-          | none => pure false
-          | some tr =>
-            let baseline := F.abs maxFirstN
-            if F.beq baseline F.zero then pure false   -- `baseline != 0` is False only for ±0.0
-            else do
-              let q ← F.div flv (F.sub maxScore maxFirstN) baseline
-              let percentImp := F.mul q (F.ofInt 100)
-              pure (F.lt percentImp tr)
+        noChangeTail flv maxScore maxFirstN es
 
 /-- the form at the pinned commit (no zero-baseline guard): kept for the witness theorem of C13 -/
 def noChangeLegacy (flv : Flavour) (scores : List F) (es : Early) : Except Err Bool :=
